@@ -86,7 +86,9 @@ pub struct ListCase {
     pub pretty: bool,
     pub extras: bool,
     pub fault: ListFault,
-    /// how the response is delivered: bit 0 = chunked transfer encoding, bit 1 = lower-case header names
+    /// how the response is delivered: bit 0 = chunked transfer encoding, bit 1 = lower-case header names,
+    /// bits 2-3 = XML spelling of the text (named entities / decimal / hexadecimal character references / references
+    /// for ordinary characters too)
     #[serde(default)]
     pub delivery: u8,
 }
@@ -119,7 +121,7 @@ impl BucketWorld {
         if self.case.force_truncated {
             truncated = true;
         }
-        let mut doc = list_document(req.bucket(), &prefix, &selected, truncated, self.case.pretty, self.case.extras, max_keys);
+        let mut doc = crate::s3sim::list_document_styled(req.bucket(), &prefix, &selected, truncated, self.case.pretty, self.case.extras, max_keys, self.case.delivery >> 2);
         match &self.case.fault {
             ListFault::None | ListFault::BadSize(..) => Response::xml(doc),
             ListFault::MissingLastModified(idx) => {
@@ -522,7 +524,7 @@ fn list_case(max_objects: usize) -> impl Strategy<Value = ListCase> {
             prop_oneof![3 => Just(100usize), 2 => Just(1usize), 2 => 1usize..=20, 1 => Just(1000usize), 1 => prop_oneof![Just(1001usize), Just(u32::MAX as usize), Just(usize::MAX / 2), Just(usize::MAX), Just(isize::MAX as usize / 56 + 1), 1001usize..=usize::MAX]],
             prop_oneof![9 => Just(false), 1 => Just(true)],
             any::<bool>(),
-            (any::<bool>(), 0u8..4),
+            (any::<bool>(), 0u8..16),
         )
             .prop_map(move |(names, stamps, sizes, decoys_before, decoys_after, max_keys, force_truncated, pretty, (extras, delivery))| ListCase {
                 archive,
@@ -569,7 +571,7 @@ fn download_case() -> impl Strategy<Value = DownloadCase> {
         date(),
         (0u32..24, 0u32..60, 0u32..60),
         1usize..=999,
-        prop_oneof![10 => Just(200u16), 3 => Just(404u16), 1 => Just(403u16), 1 => Just(500u16), 1 => Just(503u16), 1 => Just(206u16), 1 => Just(204u16)],
+        prop_oneof![10 => Just(200u16), 3 => Just(404u16), 1 => Just(403u16), 1 => Just(500u16), 1 => Just(503u16), 1 => Just(206u16), 1 => Just(204u16), 1 => proptest::sample::select(vec![201u16, 202, 203, 400, 401, 405, 410, 416, 429, 501, 502, 504, 599])],
         body,
         prop_oneof![5 => (946_684_800i64..4_102_444_800).prop_map(LastModifiedHeader::Rfc2822), 1 => Just(LastModifiedHeader::Absent), 1 => Just(LastModifiedHeader::Garbage("yesterday".into())), 1 => Just(LastModifiedHeader::Garbage("2024-08-04T10:10:07Z".into()))],
         (prop_oneof![12 => Just(false), 1 => Just(true)], prop_oneof![1 => Just(None), 1 => (946_684_800i64..4_102_444_800).prop_map(Some)], 0u8..4),
@@ -605,6 +607,7 @@ pub fn classify_list(c: &ListCase) -> CaseInfo {
         .class(!c.decoys_before.is_empty() || !c.decoys_after.is_empty(), "decoys")
         .class(matches!(c.fault, ListFault::BadSize(..)), "bad-size")
         .class(c.delivery & 1 != 0, "chunked-transfer-encoding")
+        .class(c.delivery >> 2 != 0, "numeric-character-references")
 }
 
 pub fn run(ctx: &Ctx, rep: &mut Report) {
